@@ -975,4 +975,7 @@ theorem InvP.wrapByUser {p : List Nat} {s s' : State} (h : InvP p s) {d : Nat} (
       intro e; subst e; exact ho' hdopen
   · rw [hl, hn]; exact h.libBound
 
+theorem dupHandleFail_state (s : State) (h : Nat) : (dupHandleFail s h).1 = s := by
+  unfold dupHandleFail; split <;> rfl
+
 end Rustbus.FdTable
